@@ -178,9 +178,12 @@ CLAIMED.update({
          'every entry of the lexicon is exported once, in order, with id, pos, lemma (rank-0 form), forms in rank order and its senses '
          'in entry-rank order, every synset once; subcat (>= 1.1) lists exactly the linked behaviours that have an id and 1.0 frames '
          'list exactly the linked senses; the ili attribute is the ILI id / "in" for a proposed ILI / "" otherwise (under '
-         'ili_ids_ok; refuted without it by a witness); members are the senses in synset-rank order. Not proved: that the remaining '
-         'attributes (definitions, examples, counts, relations, metadata, requires) are copied — these and the composition with '
-         'dump, load and add are decided by correspondence and by the round-trip oracle. Known finding F18 (frames without id).',
+         'ili_ids_ok; refuted without it by a witness); members are the senses in synset-rank order; lexicon attributes, metadata '
+         'and dependencies, forms with script/tags/pronunciations, sense and synset attributes, examples, counts, definitions, '
+         'ILI definitions and the three kinds of relations are copied row by row from the rows the exported lexicon owns (exact '
+         'selection stated; four naive readings refuted by witnesses). Not proved in Coq: the composition of export with dump '
+         '(C02), load (C02) and add (C01) into "re-import gives the same database" — decided end to end by the round-trip oracle '
+         'on the real code. Known finding F18 (frames without id).',
          'Trusted: Coq kernel + vm_compute; SQLite semantics as modelled in Model/Tables.v, Model/Query.v and the three extra queries '
          'in Model/Export.v (scan order of find_syntactic_behaviours checked against EXPLAIN QUERY PLAN by the model author, '
          'validated by correspondence); JSON metadata decoded by the harness (injective code in the model); correspondence harness '
